@@ -21,8 +21,8 @@ package checker
 // Comparers and scoring closures are pure functions of the stores.
 //@ opaque github.com/tikv/pd/server/schedule/filter::IsolationComparer, github.com/tikv/pd/server/schedule/filter::RegionScoreComparer, github.com/tikv/pd/server/schedule/filter::NewIsolationFilter, github.com/tikv/pd/server/schedule/filter::NewSpecialUseFilter, github.com/tikv/pd/server/schedule/filter::NewLocationImprover
 
-//@ pure sid(s *core.StoreInfo) = ite(s.meta == nil, 0, s.meta.Id)
-//@ pure sstate(s *core.StoreInfo) = ite(s.meta == nil, 0, s.meta.State)
+//@ pure storeIdOf(s *core.StoreInfo) = ite(s.meta == nil, 0, s.meta.Id)
+//@ pure storeStateOf(s *core.StoreInfo) = ite(s.meta == nil, 0, s.meta.State)
 
 // SelectStoreToAdd: the chosen store is one of the cluster's stores, in state Up, not low on space, and does not
 // already hold a peer of the region (its id is not among the region's store ids).
@@ -31,9 +31,9 @@ package checker
 //@   dispatch Filter.Target passT
 //@   requires s != nil && s.cluster != nil && s.region != nil && s.region.meta != nil
 //@   at PickFirst 1 after assert [picked-from-cluster-stores] r0 != nil ==> ufb("clusterStore", s.cluster, r0)
-//@   at PickFirst 1 after assert [picked-is-up] r0 != nil ==> sstate(r0) == 0
-//@   at PickFirst 1 after assert [picked-holds-no-peer] r0 != nil ==> !hasPeerOn(s.region, sid(r0))
-//@   ensures [adds-only-on-an-up-store-without-a-peer] result != 0 ==> !hasPeerOn(s.region, result) && (exists st *core.StoreInfo :: ufb("clusterStore", s.cluster, st) && sid(st) == result && sstate(st) == 0)
+//@   at PickFirst 1 after assert [picked-is-up] r0 != nil ==> storeStateOf(r0) == 0
+//@   at PickFirst 1 after assert [picked-holds-no-peer] r0 != nil ==> !hasPeerOn(s.region, storeIdOf(r0))
+//@   ensures [adds-only-on-an-up-store-without-a-peer] result != 0 ==> !hasPeerOn(s.region, result) && (exists st *core.StoreInfo :: ufb("clusterStore", s.cluster, st) && storeIdOf(st) == result && storeStateOf(st) == 0)
 //@   modifies ghost evres
 
 // The operator constructors are specified and verified under C08/C09; here only what is passed to them matters.
@@ -45,12 +45,12 @@ package checker
 //@ func (*ReplicaStrategy).SelectStoreToFix
 //@   props C10
 //@   requires s != nil && s.cluster != nil && s.region != nil && s.region.meta != nil && len(coLocationStores) > 0
-//@   ensures [adds-only-on-an-up-store-without-a-peer] result != 0 ==> !hasPeerOn(s.region, result) && (exists st *core.StoreInfo :: ufb("clusterStore", s.cluster, st) && sid(st) == result && sstate(st) == 0)
+//@   ensures [adds-only-on-an-up-store-without-a-peer] result != 0 ==> !hasPeerOn(s.region, result) && (exists st *core.StoreInfo :: ufb("clusterStore", s.cluster, st) && storeIdOf(st) == result && storeStateOf(st) == 0)
 //@   modifies coLocationStores[*], ghost evres
 //@ func (*ReplicaStrategy).SelectStoreToImprove
 //@   props C10
 //@   requires s != nil && s.cluster != nil && s.region != nil && s.region.meta != nil && len(coLocationStores) > 0
-//@   ensures [adds-only-on-an-up-store-without-a-peer] result != 0 ==> !hasPeerOn(s.region, result) && (exists st *core.StoreInfo :: ufb("clusterStore", s.cluster, st) && sid(st) == result && sstate(st) == 0)
+//@   ensures [adds-only-on-an-up-store-without-a-peer] result != 0 ==> !hasPeerOn(s.region, result) && (exists st *core.StoreInfo :: ufb("clusterStore", s.cluster, st) && storeIdOf(st) == result && storeStateOf(st) == 0)
 //@   modifies coLocationStores[*], ghost evres
 
 // A replica is made up only while the region has fewer peers than configured, on the store the strategy chose.
